@@ -334,6 +334,34 @@ func checkC14(c *Ctx) {
 				cs.Violation("stale-host-info", nil, fmt.Sprintf("%s differs from applying the pristine edits against the current host nodes\n got  %s\n want %s", desc, exactJSON(a), exactJSON(want)), wit())
 				return
 			}
+			// one OCI spec that starts out empty takes the Spec-level edits and every device of
+			// that file, one application after the other, twice over: later applications set
+			// variables that earlier ones have set (SHARED_MODE) - in the OCI spec, not in the cache
+			if chance(r, 30) {
+				q := devs[r.Intn(len(devs))]
+				if d0 := cache.GetDevice(q); d0 != nil {
+					chain := &oci.Spec{}
+					sp := d0.GetSpec()
+					n := 0
+					for round := 0; round < 2; round++ {
+						if sp.ApplyEdits(chain) == nil {
+							n++
+						}
+						for _, dq := range devs {
+							if d := cache.GetDevice(dq); d != nil && d.GetSpec() == sp {
+								if d.ApplyEdits(chain) == nil {
+									n++
+								}
+							}
+						}
+					}
+					c.Count("chained_applications_into_one_oci_spec", n)
+					if img := cacheImage(cache); img != image0 {
+						cs.Violation("cache-modified", map[string]string{"op": "chained-applications"}, fmt.Sprintf("after applying the Spec-level edits of %s and each of its devices, twice over, to one initially empty OCI spec the cached Specs/devices have changed:\n%s", sp.GetPath(), firstDiff(image0, img)), wit())
+						return
+					}
+				}
+			}
 			// the same request once more into the OCI spec it has already been applied to,
 			// after a host node changed its minor only: what is in the OCI spec from last
 			// time is no substitute for looking at the host node again
